@@ -543,10 +543,42 @@ func (dp *DataProcessor) applyDistinct(results []map[string]any) []map[string]an
 	return finalResults
 }
 
+// containsCaseKeyword reports whether the text holds the keyword CASE as a word of
+// its own outside string literals ("cases >= 6" and LIKE 'zzcase%' do not).
+func containsCaseKeyword(text string) bool {
+	upper := strings.ToUpper(text)
+	var quote byte
+	for i := 0; i < len(upper); i++ {
+		c := upper[i]
+		if quote != 0 {
+			if c == quote {
+				quote = 0
+			}
+			continue
+		}
+		if c == '\'' || c == '"' {
+			quote = c
+			continue
+		}
+		if strings.HasPrefix(upper[i:], SQLKeywordCase) {
+			before := i == 0 || !isWordByte(upper[i-1])
+			after := i+len(SQLKeywordCase) >= len(upper) || !isWordByte(upper[i+len(SQLKeywordCase)])
+			if before && after {
+				return true
+			}
+		}
+	}
+	return false
+}
+
+func isWordByte(c byte) bool {
+	return c == '_' || (c >= '0' && c <= '9') || (c >= 'A' && c <= 'Z') || (c >= 'a' && c <= 'z')
+}
+
 // applyHavingFilter applies HAVING filter
 func (dp *DataProcessor) applyHavingFilter(results []map[string]any) []map[string]any {
 	// Check if HAVING condition contains CASE expression
-	hasCaseExpression := strings.Contains(strings.ToUpper(dp.stream.config.Having), SQLKeywordCase)
+	hasCaseExpression := containsCaseKeyword(dp.stream.config.Having)
 
 	var filteredResults []map[string]any
 
